@@ -25,6 +25,7 @@ type Store interface {
 	Set(v int32) error
 	Get() (int32, error)
 	Callback() error
+	Orphan() error          // the plugin advertises a brokered listener twice on an id nobody ever dials
 	RevCallback() error     // host calls the plugin over a connection brokered by the plugin        // plugin calls back into the host over a brokered connection
 	Big(n int) (int, error) // response of n bytes
 	Print(out, err string) error
@@ -114,6 +115,16 @@ func (c *RPCClient) Callback() error {
 	go c.b.AcceptAndServe(id, pongRPC{})
 	var r int
 	return c.c.Call("Plugin.Callback", id, &r)
+}
+
+func (c *RPCClient) Orphan() error {
+	var r int
+	for i := 0; i < 2; i++ {
+		if err := c.c.Call("Plugin.ServeID", uint32(7777), &r); err != nil {
+			return err
+		}
+	}
+	return nil
 }
 
 func (c *RPCClient) RevCallback() error {
@@ -246,6 +257,15 @@ func (c *GRPCClient) Print(o, e string) error {
 	_, err := c.c.PrintStdio(context.Background(), &grpctest.PrintStdioRequest{Stdout: []byte(o), Stderr: []byte(e)})
 	return err
 }
+func (c *GRPCClient) Orphan() error {
+	for i := 0; i < 2; i++ {
+		if _, err := c.c.PrintKV(context.Background(), &grpctest.PrintKVRequest{Key: "serve", Value: &grpctest.PrintKVRequest_ValueInt{ValueInt: 7777}}); err != nil {
+			return err
+		}
+	}
+	return nil
+}
+
 func (c *GRPCClient) RevCallback() error {
 	id := c.b.NextId()
 	if _, err := c.c.PrintKV(context.Background(), &grpctest.PrintKVRequest{Key: "serve", Value: &grpctest.PrintKVRequest_ValueInt{ValueInt: int32(id)}}); err != nil {
